@@ -1,0 +1,140 @@
+//go:build verif
+
+package tls
+
+import (
+	"crypto/cipher"
+	"fmt"
+	"hash"
+	"io"
+	"net"
+	"sync/atomic"
+)
+
+// Verification hooks for the record layer (add-only, build tag verif).
+// They construct half-connections and data-phase connections around injected
+// primitives so that a harness can observe every nonce, additional data, IV
+// and plaintext the record layer hands to a primitive.
+
+// VerifExtractPadding exposes extractPadding.
+func VerifExtractPadding(payload []byte) (toRemove int, good byte) {
+	return extractPadding(payload)
+}
+
+// verifAEAD adapts any cipher.AEAD to the package's aead interface.
+type verifAEAD struct {
+	cipher.AEAD
+	explicit int
+}
+
+func (a *verifAEAD) explicitNonceLen() int { return a.explicit }
+
+// VerifAEAD wraps inner as a record-layer AEAD with the given explicit nonce length.
+func VerifAEAD(inner cipher.AEAD, explicitNonceLen int) interface{} {
+	return &verifAEAD{AEAD: inner, explicit: explicitNonceLen}
+}
+
+// VerifPrefixNonceAEAD is the TLS 1.2 AES-GCM nonce construction around inner.
+func VerifPrefixNonceAEAD(prefix [4]byte, inner cipher.AEAD) interface{} {
+	ret := &prefixNonceAEAD{aead: inner}
+	copy(ret.nonce[:], prefix[:])
+	return ret
+}
+
+// VerifXorNonceAEAD is the ChaCha20-Poly1305 / TLS 1.3 nonce construction around inner.
+func VerifXorNonceAEAD(mask [12]byte, inner cipher.AEAD) interface{} {
+	ret := &xorNonceAEAD{aead: inner}
+	copy(ret.nonceMask[:], mask[:])
+	return ret
+}
+
+// VerifHalfConn is one direction of the record layer.
+type VerifHalfConn struct{ hc halfConn }
+
+// VerifNewHalfConn builds a half-connection with the given version, cipher
+// (cipher.Stream, a cbcMode, a value from VerifAEAD/VerifPrefixNonceAEAD/
+// VerifXorNonceAEAD, or nil), MAC and sequence number.
+func VerifNewHalfConn(version uint16, ciph interface{}, mac hash.Hash, seq [8]byte) *VerifHalfConn {
+	v := &VerifHalfConn{}
+	v.hc.version = version
+	v.hc.cipher = ciph
+	v.hc.mac = mac
+	v.hc.seq = seq
+	return v
+}
+
+func (v *VerifHalfConn) Seq() [8]byte          { return v.hc.seq }
+func (v *VerifHalfConn) ExplicitNonceLen() int { return v.hc.explicitNonceLen() }
+
+// Encrypt runs halfConn.encrypt on a copy of the 5-byte header. panicked is
+// the recovered panic value, if any.
+func (v *VerifHalfConn) Encrypt(header, payload []byte, rand io.Reader) (record []byte, err error, panicked string) {
+	defer func() {
+		if r := recover(); r != nil {
+			record, err, panicked = nil, nil, fmt.Sprint(r)
+		}
+	}()
+	rec := make([]byte, len(header), len(header)+len(payload)+512)
+	copy(rec, header)
+	record, err = v.hc.encrypt(rec, payload, rand)
+	return
+}
+
+// Decrypt runs halfConn.decrypt on a copy of record (header + body).
+// alert is -1 on success, otherwise the alert number.
+func (v *VerifHalfConn) Decrypt(record []byte) (plaintext []byte, typ byte, alert int, panicked string) {
+	defer func() {
+		if r := recover(); r != nil {
+			plaintext, typ, alert, panicked = nil, 0, -1, fmt.Sprint(r)
+		}
+	}()
+	rec := append([]byte(nil), record...)
+	p, t, err := v.hc.decrypt(rec)
+	if err != nil {
+		a, ok := err.(Alert)
+		if !ok {
+			return nil, 0, 256, ""
+		}
+		return nil, 0, int(a), ""
+	}
+	return append([]byte(nil), p...), byte(t), -1, ""
+}
+
+// VerifDataConn returns a connection that is already in the data phase
+// (handshake complete) at the given version with the given primitives for
+// each direction.
+func VerifDataConn(conn net.Conn, isClient bool, vers uint16, inCipher interface{}, inMac hash.Hash,
+	outCipher interface{}, outMac hash.Hash, config *Config) *Conn {
+	if config == nil {
+		config = &Config{}
+	}
+	c := &Conn{conn: conn, isClient: isClient, config: config}
+	c.vers = vers
+	c.haveVers = true
+	c.in.version, c.in.cipher, c.in.mac = vers, inCipher, inMac
+	c.out.version, c.out.cipher, c.out.mac = vers, outCipher, outMac
+	c.handshakes = 1
+	c.handshakeLog = new(ServerHandshake)
+	atomic.StoreUint32(&c.handshakeStatus, 1)
+	return c
+}
+
+// VerifSetSent sets the counters that drive dynamic record sizing.
+func VerifSetSent(c *Conn, bytesSent, packetsSent int64) {
+	c.out.Lock()
+	c.bytesSent, c.packetsSent = bytesSent, packetsSent
+	c.out.Unlock()
+}
+
+// VerifSent reads the counters that drive dynamic record sizing.
+func VerifSent(c *Conn) (bytesSent, packetsSent int64) {
+	c.out.Lock()
+	defer c.out.Unlock()
+	return c.bytesSent, c.packetsSent
+}
+
+// VerifRecordLimits returns maxPlaintext, maxCiphertext, maxCiphertextTLS13,
+// tcpMSSEstimate and recordSizeBoostThreshold.
+func VerifRecordLimits() (int, int, int, int, int) {
+	return maxPlaintext, maxCiphertext, maxCiphertextTLS13, tcpMSSEstimate, recordSizeBoostThreshold
+}
